@@ -107,6 +107,7 @@ def gen_step(rng, st: State):
             return {"m": m, "upd": {k: gen_update(rng, st, k) for k in ks}}
         if m == "set_index":
             cand = [k for k in plain if st.cols[k]["required"]
+                    and k not in st.index        # no duplicate level names
                     and st.cols[k]["dtype"] in ("int", "float", "str", "dt", "const")]
             if cand and len(keys) >= 2:
                 ks = rng.sample(cand, 1 if rng.random() < 0.8 or len(keys) < 3
